@@ -218,7 +218,10 @@ pub fn validate_denom(denom: impl Into<String>) -> StdResult<String> {
 pub fn validate_ibc_denom(ibc_denom: impl Into<String>) -> StdResult<String> {
     let ibc_denom: String = ibc_denom.into();
 
-    if ibc_denom.starts_with("ibc/") && ibc_denom.strip_prefix("ibc/").unwrap().len() == 64 {
+    // The hash must be 64 characters long: comparing the byte length alone
+    // would accept a shorter hash containing multi-byte characters.
+    let hash = ibc_denom.strip_prefix("ibc/");
+    if hash.map(|h| h.is_ascii() && h.len() == 64).unwrap_or(false) {
         Ok(ibc_denom)
     } else {
         Err(StdError::generic_err("ibc denom is invalid"))
